@@ -15,7 +15,11 @@ def mk_utpm(ctx, algopy, X, ld='infer'):
     X = np.asarray(X)
     if X.dtype == object:
         X = np.array(X.tolist(), dtype=complex if any(isinstance(e, complex) for e in X.ravel()) else float)
-    return algopy.UTPM(X.copy())
+    X = X.copy()
+    if ctx.opts.get('layout') == 'F' and X.ndim >= 4:
+        # every coefficient matrix in Fortran order (what LAPACK wrappers may overwrite in place)
+        X = np.ascontiguousarray(np.swapaxes(X, -1, -2)).swapaxes(-1, -2)
+    return algopy.UTPM(X)
 
 
 def mk_array(ctx, A, ld='infer'):
